@@ -17,3 +17,13 @@ claim("C08",
       "Proof for all messages, EDNS settings, maxima and protocols: maxDNSSize is the stated table; every response is truncated (miekg Truncate, assumed contract from its source) to exactly maxDNSSize(network, client's EDNS size, configured maximum) after its OPT record is in place; TC set implies an empty answer section; a query with OPT gets an OPT back with the client's UDP size, version 0 and DO mirrored, and no OPT is invented otherwise; padding is added only under HasPaddingSupport (DoT/DoH/DoQ) and only when the request carries a padding option; keep-alive only when requested; the two-byte stream prefix never covers more than 65535 bytes. Quantified loop invariants, exact uint16/uint32 arithmetic.",
       "Trusted: govc, SMT solvers, go/ssa. Assumed from miekg/dns source: IsEdns0 (last OPT), OPT accessors (bit layout of the TTL field), Truncate (keeps the last OPT, never trims question/OPT), PackBuffer, EDNS0 option codes; rand.Intn range; slices.Grow; binary.BigEndian.PutUint16. NOT decided: the wire-size bound itself (question+OPT larger than the limit is sent oversize by miekg Truncate; DoH padding after truncation) - dependency code, see DESIGN section 6.",
       "DESIGN.md section 5 C08")
+
+claim("C06",
+      "Proof with a ghost stamp per receive buffer (stamped[a] = number of leading bytes of backing array a that belong to the message being received; pooled buffers come with stamp 0): the decoder's assumed contract requires every byte it is given to be stamped, and that precondition is discharged on every receive path - UDP (buf[:n]), TCP/DoT (buffer resliced to the announced length, then ReadFull), DoQ (readAll loop invariant, then buf[2:n]), DoH POST/GET (fresh slices), upstream UDP/TCP replies (buf[:n]) - for all lengths, contents and buffer histories, including the closures handed to the worker pool (precondition checked at the hand-over).",
+      "Trusted: govc, SMT solvers, go/ssa. Assumed: miekg/dns Unpack reads only msg[0:len(msg)]; reader contracts (ReadFromSession, io.ReadFull, io.Reader.Read, io.ReadAll, base64) stamp exactly what they write; a pooled buffer is owned by one request between Get and Put; byte-slice pools hold whole buffers of their constructor's size. Not covered: httpRequestToMsgJSON and isDoH (assumed contracts), the callers of UpstreamPlain.readMsg establishing its precondition (buffer not yet stamped).",
+      "DESIGN.md section 5 C06")
+
+claim("C01",
+      "Proof over ghost effect state (writes per response writer with the ID/rcode/question handed over, serve count per handler): acceptMsg is the documented decision table and total on every message value; a response is ignored without any write or handler call; unsupported opcode / wrong section counts get exactly one NOTIMP / FORMERR response with the request's ID and first question and never reach the handler; an acceptable query reaches the handler exactly once, and a handler error yields a SERVFAIL with the request's ID and question; the recorder forwards each write once; `written` is true iff something was written; undecodable bytes are neither answered nor handed to the handler; only UDP/TCP writers' responses are disposed. No nil dereference, index or type-assertion failure in these functions for any input.",
+      "Trusted: govc, SMT solvers, go/ssa. Assumed: miekg/dns SetRcode/SetReply/Unpack contracts (from source); interface contracts for ResponseWriter.WriteMsg and Handler.ServeDNS including handler discipline H1 (a handler reaches a recorder only through WriteMsg, leaves the request's ID/opcode/question and the server object alone); metrics/log observers are effect-free; recover() is a no-op on non-panicking paths. Not decided: byte-level codecs, the per-transport framing of DoH/DoQ/DNSCrypt responses, transport parity as a whole.",
+      "DESIGN.md section 5 C01")
